@@ -983,3 +983,122 @@ func nestedThroughCallees(c *Ctx, fns []*ssa.Function) ([]lockEdge, []reentry) {
 	}
 	return edges, re
 }
+
+// ---- pooled buffers -------------------------------------------------------------------------------
+
+// poolAliases: functions that take an object from a sync.Pool, put it back, and still hand a view of it (the object
+// itself, buf.Bytes(), a slice of that) to their caller, a channel or a longer-lived structure. The next user of the
+// pool overwrites the bytes the first caller is still holding.
+type poolAlias struct {
+	fn   *ssa.Function
+	at   ssa.Instruction
+	what string
+}
+
+func poolAliases(c *Ctx) (out []poolAlias, pools int) {
+	for _, fn := range c.P.LibFns {
+		var pooled []ssa.Value
+		puts := false
+		ir.EachInstr(fn, func(_ *ssa.BasicBlock, _ int, in ssa.Instruction) {
+			switch x := in.(type) {
+			case *ssa.Call:
+				switch ir.CallName(x) {
+				case "(*sync.Pool).Get":
+					pooled = append(pooled, x)
+				case "(*sync.Pool).Put":
+					puts = true
+				}
+			case *ssa.Defer:
+				if ir.CallName(x) == "(*sync.Pool).Put" {
+					puts = true
+				}
+			}
+		})
+		if len(pooled) == 0 {
+			continue
+		}
+		pools++
+		if !puts {
+			continue
+		}
+		// views of the pooled object
+		view := map[ssa.Value]bool{}
+		work := append([]ssa.Value{}, pooled...)
+		for _, p := range pooled {
+			view[p] = true
+		}
+		for len(work) > 0 {
+			v := work[0]
+			work = work[1:]
+			if v.Referrers() == nil {
+				continue
+			}
+			for _, r := range *v.Referrers() {
+				var nv ssa.Value
+				switch y := r.(type) {
+				case *ssa.TypeAssert:
+					nv = y
+				case *ssa.Extract:
+					nv = y
+				case *ssa.Slice:
+					nv = y
+				case *ssa.Phi:
+					nv = y
+				case *ssa.ChangeType:
+					nv = y
+				case *ssa.MakeInterface:
+					nv = y
+				case *ssa.Call:
+					n := ir.CallName(y)
+					if len(y.Call.Args) > 0 && y.Call.Args[0] == v && (n == "(*bytes.Buffer).Bytes" || n == "(*bytes.Buffer).Next" || n == "(*bytes.Buffer).AvailableBuffer") {
+						nv = y
+					}
+				}
+				if nv != nil && !view[nv] {
+					view[nv] = true
+					work = append(work, nv)
+				}
+			}
+		}
+		ir.EachInstr(fn, func(blk *ssa.BasicBlock, _ int, in ssa.Instruction) {
+			switch x := in.(type) {
+			case *ssa.Return:
+				if blk == fn.Recover {
+					return
+				}
+				for _, rv := range ir.Results(x) {
+					if view[rv] {
+						out = append(out, poolAlias{fn, in, "returns"})
+					}
+				}
+			case *ssa.Send:
+				if view[x.X] {
+					out = append(out, poolAlias{fn, in, "sends on a channel"})
+				}
+			case *ssa.Select:
+				for _, st := range x.States {
+					if st.Send != nil && view[st.Send] {
+						out = append(out, poolAlias{fn, in, "sends on a channel"})
+					}
+				}
+			case *ssa.Store:
+				if view[x.Val] {
+					if _, _, ok := ir.FieldOf(x.Addr); ok {
+						out = append(out, poolAlias{fn, in, "stores in a structure"})
+					}
+				}
+			}
+		})
+	}
+	return out, pools
+}
+
+// poolAliasRule reports poolAliases under the given rule name.
+func poolAliasRule(c *Ctx, rule string) {
+	al, pools := poolAliases(c)
+	for _, a := range al {
+		c.R.Violate(rule, "pooled buffer escapes from "+fname(a.fn), c.Pos(a.at.Pos()),
+			sprintf("%s takes a buffer from a sync.Pool, puts it back, and still %s a view of it (the buffer or its Bytes()): the next user of the pool overwrites what the first one is still holding — frames come out duplicated, merged or carrying another message's bytes", fname(a.fn), a.what))
+	}
+	c.R.Hold(rule, "pooled buffers do not outlive their Put", "", sprintf("%d function(s) using a sync.Pool examined", pools))
+}
